@@ -386,6 +386,9 @@ class ModuleHandle(object):
             ast.FunctionDef: lambda x: [x.name],
             ast.AsyncFunctionDef: lambda x: [x.name],
         }
+        if hasattr(ast, "TypeAlias"):
+            # ``type Alias = int`` (Python 3.12+) binds ``Alias``.
+            extractors[ast.TypeAlias] = lambda x: [x.name.id]
         if isinstance(node, tuple(extractors.keys())):
             return extractors[type(node)](node)
         return []
